@@ -744,11 +744,14 @@ namespace bloch::runtime {
         // while the class table and qubit bookkeeping are still alive. The run is over and its
         // output has been flushed, so user destructors are not run (one that throws would
         // terminate the process).
+        std::vector<std::shared_ptr<Object>> alive;
         {
             std::lock_guard<std::mutex> lock(m_heapMutex);
             for (auto& w : m_heap) {
-                if (auto obj = w.lock())
+                if (auto obj = w.lock()) {
                     obj->skipDestructor = true;
+                    alive.push_back(std::move(obj));
+                }
             }
         }
         m_returnValue = {};
@@ -757,6 +760,13 @@ namespace bloch::runtime {
             if (kv.second)
                 kv.second->staticStorage.clear();
         }
+        // Objects that refer to each other would keep one another allocated after the roots are
+        // gone (for the rest of a multi-shot run): cut the references between them first.
+        for (auto& obj : alive) {
+            std::vector<Value> fields = std::move(obj->fields);
+            obj->fields.clear();
+        }
+        alive.clear();
     }
 
     Value RuntimeEvaluator::lookup(const std::string& name) {
